@@ -253,3 +253,11 @@ func TestWindowExhaustive(t *testing.T) {
 	}
 	P.SetExhaustive()
 }
+
+// History clause over a shared delegation store (chain/store.go): checks interleaved with loader
+// changes, re-decoding and sibling invocations over the same delegations; every decision is compared
+// with the reference rules for the store as it is at that moment.
+var storeProp = h.Define(P, "store", func(t *rapid.T) chain.StoreCase { return chain.DrawStore(t, "time") },
+	func(c *h.Ctx, sc chain.StoreCase) { chain.RunStore(c, sc, "C04") })
+
+func TestStore(t *testing.T) { storeProp.Check(t) }
